@@ -411,6 +411,72 @@ theorem fiber_limit (MAX : Nat) (ops : List FibOp) :
       have := hp.conserve
       simp; omega
 
+/-- **A scan that hits the fiber limit leaves the scanner usable**: every `yr_re_exec` (whatever it needs, whether it
+    fails or not) returns with no fiber live and the pool invariant intact; it fails exactly when it needs more
+    than `MAX` fibers at once. Hence, for every sequence of scans with one scanner, each scan's outcome depends only
+    on its own need — a hostile scan never changes the result of the scans that follow. -/
+theorem fiber_limit_scanner_reusable (MAX need : Nat) (p : Pool) (hp : PoolInv MAX p) (h0 : p.live = 0) :
+    PoolInv MAX (reExec G MAX need p).1 ∧ (reExec G MAX need p).1.live = 0 ∧
+    ((reExec G MAX need p).2 = some .tooManyFibers ↔ need > MAX) ∧ ((reExec G MAX need p).2 = none ↔ need ≤ MAX) := by
+  suffices H : ∀ (need : Nat) (p : Pool), PoolInv MAX p →
+      PoolInv MAX (reExec G MAX need p).1 ∧ (reExec G MAX need p).1.live = 0 ∧
+      ((reExec G MAX need p).2 = some .tooManyFibers ↔ p.live + need > MAX) ∧ ((reExec G MAX need p).2 = none ↔ p.live + need ≤ MAX) by
+    have := H need p hp
+    rw [h0] at this
+    simpa using this
+  intro need
+  induction need with
+  | zero =>
+    intro p hp
+    have hb := hp.bound; have hc := hp.conserve
+    have hinv : PoolInv MAX (releaseAll p) := ⟨hb, by show p.allocated = p.free + p.live + 0; omega⟩
+    refine ⟨hinv, rfl, ?_, ?_⟩
+    · show (none : Option Err) = some .tooManyFibers ↔ p.live + 0 > MAX
+      constructor
+      · intro h; cases h
+      · intro h; omega
+    · show (none : Option Err) = none ↔ p.live + 0 ≤ MAX
+      constructor
+      · intro _; omega
+      · intro _; rfl
+  | succ n ih =>
+    intro p hp
+    have hb := hp.bound; have hc := hp.conserve
+    simp only [reExec]
+    by_cases hfree : p.free > 0
+    · have e : fibStep G MAX p .create = (⟨p.allocated, p.free - 1, p.live + 1⟩, none) := by simp [fibStep, hfree]
+      rw [e]
+      have hp' : PoolInv MAX ⟨p.allocated, p.free - 1, p.live + 1⟩ := ⟨hb, by show p.allocated = p.free - 1 + (p.live + 1); omega⟩
+      have := ih _ hp'
+      refine ⟨this.1, this.2.1, ?_, ?_⟩
+      · rw [this.2.2.1]; show p.live + 1 + n > MAX ↔ p.live + (n + 1) > MAX; omega
+      · rw [this.2.2.2]; show p.live + 1 + n ≤ MAX ↔ p.live + (n + 1) ≤ MAX; omega
+    · by_cases hfull : G.fiberFull p.allocated MAX = true
+      · have e : fibStep G MAX p .create = (p, some .tooManyFibers) := by simp [fibStep, hfree, hfull]
+        rw [e]
+        have hmax := (hG.fiber _ _ hb).1 hfull
+        have hinv : PoolInv MAX (releaseAll p) := ⟨hb, by show p.allocated = p.free + p.live + 0; omega⟩
+        refine ⟨hinv, rfl, ?_, ?_⟩
+        · show some Err.tooManyFibers = some .tooManyFibers ↔ p.live + (n + 1) > MAX
+          constructor
+          · intro _; omega
+          · intro _; rfl
+        · show some Err.tooManyFibers = none ↔ p.live + (n + 1) ≤ MAX
+          constructor
+          · intro h; cases h
+          · intro h; omega
+      · have e : fibStep G MAX p .create = (⟨p.allocated + 1, p.free, p.live + 1⟩, none) := by simp [fibStep, hfree, hfull]
+        rw [e]
+        have hne : p.allocated ≠ MAX := fun e => hfull ((hG.fiber _ _ hb).2 e)
+        have hp' : PoolInv MAX ⟨p.allocated + 1, p.free, p.live + 1⟩ :=
+          ⟨by show p.allocated + 1 ≤ MAX; omega, by show p.allocated + 1 = p.free + (p.live + 1); omega⟩
+        have := ih _ hp'
+        refine ⟨this.1, this.2.1, ?_, ?_⟩
+        · rw [this.2.2.1]; show p.live + 1 + n > MAX ↔ p.live + (n + 1) > MAX; omega
+        · rw [this.2.2.2]; show p.live + 1 + n ≤ MAX ↔ p.live + (n + 1) ≤ MAX; omega
+
+example : reExecSeq Guards.spec 4 ⟨0, 0, 0⟩ [2, 9, 2, 4, 5] = [none, some .tooManyFibers, none, none, some .tooManyFibers] := by decide
+
 example : (fibRun Guards.spec 2 ⟨0, 0, 0⟩ [.create, .create, .create, .release, .create]).2 =
           [none, none, some .tooManyFibers, none, none] := by decide
 
